@@ -1,25 +1,50 @@
 (* C17.v — Iterators are bidirectional cursors over an immutable snapshot
    Statements only: every theorem is closed by [exact] of a lemma proved elsewhere, and its
-   axioms are printed.  Generated once by tools/mkprop.py from the proved lemmas' statements. *)
-From Verif Require Import Base Seq IterProofs.
+   axioms are printed.  Generated once by tools/mkprop.py from the proved lemmas' statements. 
+   Round 2 (polish): an [Example] of non-vacuity beside every theorem (data in IterProofs2.v), and the
+   pool-level theorems (IterProofs2.v, PoolFrame.v) from C17_get_iterator_starts_over_the_current_view on:
+   the snapshot clause ("enumerates the collection as it was when the iterator was obtained; several
+   iterators do not influence each other") stated on the pool machine that the correspondence executes. *)
+From Verif Require Import Base Sorter Value Seq Coll Pool PoolFrame IterProofs IterProofs2.
+Local Open Scope nat_scope.
 
 Theorem C17_slot_within_bounds :
   forall (A : Type) (zero : A) (l : list A) (ms : list move),
          it_slot (walk A zero (it_make l) ms) <= length l.
 Proof. exact C17_slot_inv. Qed.
 
+(* non-vacuity: an iterator over the 4 values [11;22;33;44] and the 7-move walk
+   Next, Next, Prev, ToSlot(-1), Next (at the end: stays), ToSlot(9) (clamped), Prev: the slots visited *)
+Example C17_slot_within_bounds_example :
+  walk_trace 0%Z (it_make ex_vals) ex_moves = [0; 1; 2; 1; 4; 4; 4; 3] /\
+  walk Z 0%Z (it_make ex_vals) ex_moves = {| it_vals := ex_vals; it_slot := 3 |} /\
+  it_slot (walk Z 0%Z (it_make ex_vals) ex_moves) <= length ex_vals.
+Proof. split; [vm_compute; reflexivity|]. split; [vm_compute; reflexivity|]. apply C17_slot_within_bounds. Qed.
+
 Theorem C17_moves_never_change_the_snapshot :
   forall (A : Type) (zero : A) (i : iter A) (ms : list move),
          it_vals (walk A zero i ms) = it_vals i.
 Proof. exact C17_snapshot. Qed.
 
+Example C17_moves_never_change_the_snapshot_example :
+  it_vals (walk Z 0%Z ex_mid ex_moves) = ex_vals.
+Proof. apply (C17_moves_never_change_the_snapshot Z 0%Z ex_mid ex_moves). Qed.
+
 Theorem C17_has_next_iff :
   forall (A : Type) (i : iter A), has_next i = true <-> it_slot i < it_size i.
 Proof. exact has_next_iff. Qed.
 
+Example C17_has_next_iff_example :
+  has_next ex_mid = true /\ has_next ex_end = false /\ has_next (it_make (@nil Z)) = false.
+Proof. repeat split. Qed.
+
 Theorem C17_has_prev_iff :
   forall (A : Type) (i : iter A), has_prev i = true <-> 0 < it_slot i.
 Proof. exact has_prev_iff. Qed.
+
+Example C17_has_prev_iff_example :
+  has_prev ex_mid = true /\ has_prev (it_make ex_vals) = false /\ has_prev ex_end = true.
+Proof. repeat split. Qed.
 
 Theorem C17_get_next :
   forall (A : Type) (zero : A) (i : iter A),
@@ -29,9 +54,19 @@ Theorem C17_get_next :
          it_slot (snd (get_next zero i)) = S (it_slot i).
 Proof. exact get_next_some. Qed.
 
+(* non-vacuity: at slot 2 of 4, GetNext returns the third value and moves to slot 3 *)
+Example C17_get_next_example :
+  wf Z ex_mid /\ has_next ex_mid = true /\
+  get_next 0%Z ex_mid = (33%Z, {| it_vals := ex_vals; it_slot := 3 |}).
+Proof. split; [vm_compute; lia|]. split; reflexivity. Qed.
+
 Theorem C17_get_next_at_end :
   forall (A : Type) (zero : A) (i : iter A), has_next i = false -> get_next zero i = (zero, i).
 Proof. exact get_next_end. Qed.
+
+Example C17_get_next_at_end_example :
+  has_next ex_end = false /\ get_next 0%Z ex_end = (0%Z, ex_end).
+Proof. split; reflexivity. Qed.
 
 Theorem C17_get_prev :
   forall (A : Type) (zero : A) (i : iter A),
@@ -40,9 +75,17 @@ Theorem C17_get_prev :
          it_slot (snd (get_prev zero i)) = it_slot i - 1.
 Proof. exact get_prev_some. Qed.
 
+Example C17_get_prev_example :
+  has_prev ex_mid = true /\ get_prev 0%Z ex_mid = (22%Z, {| it_vals := ex_vals; it_slot := 1 |}).
+Proof. split; reflexivity. Qed.
+
 Theorem C17_get_prev_at_start :
   forall (A : Type) (zero : A) (i : iter A), has_prev i = false -> get_prev zero i = (zero, i).
 Proof. exact get_prev_start. Qed.
+
+Example C17_get_prev_at_start_example :
+  has_prev (it_make ex_vals) = false /\ get_prev 0%Z (it_make ex_vals) = (0%Z, it_make ex_vals).
+Proof. split; reflexivity. Qed.
 
 Theorem C17_next_then_prev :
   forall (A : Type) (zero : A) (i : iter A),
@@ -50,12 +93,22 @@ Theorem C17_next_then_prev :
          let '(v, i') := get_next zero i in fst (get_prev zero i') = v /\ snd (get_prev zero i') = i.
 Proof. exact next_prev_id. Qed.
 
+Example C17_next_then_prev_example :
+  has_next ex_mid = true /\
+  get_prev 0%Z (snd (get_next 0%Z ex_mid)) = (fst (get_next 0%Z ex_mid), ex_mid).
+Proof. split; reflexivity. Qed.
+
 Theorem C17_prev_then_next :
   forall (A : Type) (zero : A) (i : iter A),
          wf A i ->
          has_prev i = true ->
          let '(v, i') := get_prev zero i in fst (get_next zero i') = v /\ snd (get_next zero i') = i.
 Proof. exact prev_next_id. Qed.
+
+Example C17_prev_then_next_example :
+  wf Z ex_end /\ has_prev ex_end = true /\
+  get_next 0%Z (snd (get_prev 0%Z ex_end)) = (44%Z, ex_end).
+Proof. split; [vm_compute; lia|]. split; reflexivity. Qed.
 
 Theorem C17_to_slot :
   forall (A : Type) (i : iter A) (k : Z),
@@ -65,6 +118,13 @@ Theorem C17_to_slot :
           then n
           else if (0 <=? k)%Z then k else if (k <? - n)%Z then Z.min 1 n else (k + n + 1)%Z).
 Proof. exact to_slot_spec_exact. Qed.
+
+(* non-vacuity: size 4, ToSlot(k) for k = -6, -5, -4, -1, 0, 1, 4, 5, 6 (negative slots count from the end,
+   out-of-range slots clamp) *)
+Example C17_to_slot_example :
+  map (fun k => it_slot (to_slot ex_mid k)) [-6; -5; -4; -1; 0; 1; 4; 5; 6]%Z = [1; 1; 1; 4; 0; 1; 4; 4; 4] /\
+  it_slot (to_slot (it_make (@nil Z)) (-3)) = 0.
+Proof. split; vm_compute; reflexivity. Qed.
 
 Theorem C17_to_start :
   forall (A : Type) (i : iter A), it_slot (to_start i) = 0.
@@ -77,6 +137,79 @@ Proof. exact to_end_slot. Qed.
 Theorem C17_enumerates_snapshot_in_order :
   forall (A : Type) (zero : A) (l : list A), drain A zero (S (length l)) (it_make l) = l.
 Proof. exact drain_all. Qed.
+
+Example C17_enumerates_snapshot_in_order_example : drain Z 0%Z 5 (it_make ex_vals) = ex_vals.
+Proof. vm_compute; reflexivity. Qed.
+
+Theorem C17_get_iterator_starts_over_the_current_view :
+  forall (zero : val) (p : pool) (o : nat) (okeys : list val) (p' : pool) (r : ret),
+         step zero p (GetIterator o okeys) = (p', r) ->
+         r = RNew ->
+         exists (z : val) (l : list val),
+           seq_view (get p o) okeys = Some l /\ p' = p ++ [OIter z l 0].
+Proof. exact get_iterator_snapshot. Qed.
+
+Theorem C17_pool_move_is_the_iterator_move :
+  forall (zero : val) (p : list obj) (i : nat) (z : val) (s : list val) (k : nat) (m : move),
+         i < length p ->
+         nth i p ODead = OIter z s k ->
+         fst (step zero p (op_of_move i m)) =
+         put p i (OIter z s (it_slot (apply_move val z (mk_iter s k) m))).
+Proof. exact pool_move. Qed.
+
+Theorem C17_pool_move_results :
+  forall (zero : val) (p : list obj) (i : nat) (z : val) (s : list val) (k : nat),
+         nth i p ODead = OIter z s k ->
+         snd (step zero p (INext i)) = RVal (fst (get_next z (mk_iter s k))) /\
+         snd (step zero p (IPrev i)) = RVal (fst (get_prev z (mk_iter s k))) /\
+         snd (step zero p (IHasNext i)) = RBool (has_next (mk_iter s k)) /\
+         snd (step zero p (IHasPrev i)) = RBool (has_prev (mk_iter s k)) /\
+         snd (step zero p (IGetSlot i)) = RInt (Z.of_nat k) /\
+         snd (step zero p (IGetSize i)) = RInt (Z.of_nat (length s)).
+Proof. exact pool_move_result. Qed.
+
+Theorem C17_pool_history_keeps_snapshot_and_slot_bounds :
+  forall (zero : val) (ops : list op) (p : list obj) (i : nat) (z : val) 
+           (s : list val) (k : nat),
+         nth i p ODead = OIter z s k ->
+         k <= length s ->
+         exists k' : nat, nth i (run zero p ops) ODead = OIter z s k' /\ k' <= length s.
+Proof. exact pool_iter_invariant. Qed.
+
+(* non-vacuity: pool history — a list [1;2;3] built from a Go slice, an iterator over it (slot 2 of the
+   pool) moved once, then the list is mutated (append 9, remove first), a second iterator is obtained
+   (slot 3 of the pool: it sees [2;3;9]) and moved to its end, the list is emptied, the first iterator moves
+   again: it still yields the values of [1;2;3] and both slots are within bounds *)
+Example C17_pool_history_example :
+  run (vi 0) [] ex_pool_ops =
+    [OSlice [vi 1; vi 2; vi 3]; OLst []; OIter (vi 0) [vi 1; vi 2; vi 3] 2; OIter (vi 0) [vi 2; vi 3; vi 9] 3] /\
+  snd (step (vi 0) (run (vi 0) [] ex_pool_ops) (INext 2)) = RVal (vi 3).
+Proof. split; vm_compute; reflexivity. Qed.
+
+Theorem C17_fresh_iterator_in_every_later_history :
+  forall (zero : val) (p : pool) (o : nat) (okeys : list val) (p' : pool) (ops : list op),
+         step zero p (GetIterator o okeys) = (p', RNew) ->
+         exists (z : val) (l : list val) (k' : nat),
+           seq_view (get p o) okeys = Some l /\
+           nth (length p) (run zero p' ops) ODead = OIter z l k' /\ k' <= length l.
+Proof. exact fresh_iterator_invariant. Qed.
+
+Theorem C17_iterators_do_not_influence_each_other :
+  forall (zero : val) (p : list obj) (i j : nat) (ms : list move),
+         i < length p -> i <> j -> nth i (run zero p (map (op_of_move j) ms)) ODead = nth i p ODead.
+Proof. exact other_iterators_untouched. Qed.
+
+Theorem C17_iterator_moves_change_nothing_else :
+  forall (zero : val) (p : list obj) (i : nat) (m : move) (x : nat),
+         x < length p -> x <> i -> nth x (fst (step zero p (op_of_move i m))) ODead = nth x p ODead.
+Proof. exact iterator_moves_change_nothing_else. Qed.
+
+Theorem C17_ops_not_addressing_an_object_leave_it :
+  forall (zero : val) (ops : list op) (p : list obj) (i : nat),
+         i < length p ->
+         (forall o : op, In o ops -> writes o <> Some i) ->
+         nth i (run zero p ops) ODead = nth i p ODead.
+Proof. exact run_frame. Qed.
 
 
 Print Assumptions C17_slot_within_bounds.
@@ -93,3 +226,11 @@ Print Assumptions C17_to_slot.
 Print Assumptions C17_to_start.
 Print Assumptions C17_to_end.
 Print Assumptions C17_enumerates_snapshot_in_order.
+Print Assumptions C17_get_iterator_starts_over_the_current_view.
+Print Assumptions C17_pool_move_is_the_iterator_move.
+Print Assumptions C17_pool_move_results.
+Print Assumptions C17_pool_history_keeps_snapshot_and_slot_bounds.
+Print Assumptions C17_fresh_iterator_in_every_later_history.
+Print Assumptions C17_iterators_do_not_influence_each_other.
+Print Assumptions C17_iterator_moves_change_nothing_else.
+Print Assumptions C17_ops_not_addressing_an_object_leave_it.
